@@ -7,6 +7,9 @@ C08 — same seed, same run.
   the generator: the model's evaluation functions have no RNG argument. ASSUMED (not in the types of
   the Rust code): `problem.objective(&self, …)` is a pure function of the solution, and the evaluators
   do not touch the `_state` they are handed.
+* thread pools (`Split`, `blockIdx`, `chunks`, `chunksExact`, `evalParW`): the number of threads enters
+  only through how the slice is divided into contiguous blocks, who processes which block and how the
+  writes interleave; `popEvaluate` is the `PopulationEvaluator` component (src/components/evaluation.rs).
 * a run language whose steps draw from the generator between evaluations, push/merge populations,
   update the best individual and log; the state is populations × generator position × evaluations ×
   best × log, plus a ghost record of the objective calls in completion order.
@@ -333,6 +336,61 @@ structure GenId where
 def setupKeep : Option GenId → Except Unit (Option GenId) := fun s => .ok s
 def setupSupply (g : GenId) : Option GenId → Except Unit (Option GenId) := fun _ => .ok (some g)
 
+/-! ### Thread pools: how a slice is divided among workers
+
+`Parallel::evaluate` is `individuals.par_iter_mut().for_each(…)`. On a pool of `t` threads rayon divides
+the slice adaptively into contiguous blocks (a binary split tree whose depth and shape depend on `t`
+and on work stealing); every block is processed front to back by SOME worker. The number of threads
+therefore enters only through (i) the shape of the split tree, (ii) which worker takes which block and
+(iii) how the workers' writes interleave — all of which is a completion order `sched` of the indices.
+Because a split tree divides `[lo, lo + len)` without remainder by construction (`Split.blocks_tile` in
+Proofs/C08.lean), every such order is a permutation of the indices. A blockwise evaluator
+(`par_chunks_mut(size)`) is the special case `chunks`; `par_chunks_exact_mut(size)` (`chunksExact`) is NOT
+a division of the slice unless `size ∣ len` — it is modelled only to state what goes wrong. -/
+
+/-- A binary split tree: `node k l r` splits the current block `[lo, lo + len)` at `lo + min k len`. -/
+inductive Split where
+  | leaf
+  | node (k : Nat) (l r : Split)
+  deriving Repr
+
+/-- The blocks `(start, length)` at the leaves, left to right. -/
+def Split.blocks : Split → Nat → Nat → List (Nat × Nat)
+  | .leaf, lo, len => [(lo, len)]
+  | .node k l r, lo, len =>
+    Split.blocks l lo (min k len) ++ Split.blocks r (lo + min k len) (len - min k len)
+
+/-- The indices of a block, in the order a worker processes them. -/
+def blockIdx (b : Nat × Nat) : List Nat := List.range' b.1 b.2
+
+/-- `par_chunks_mut(size)`: `⌈n / size⌉` blocks, the last one shorter. -/
+def chunks (size n : Nat) : List (Nat × Nat) :=
+  (List.range ((n + size - 1) / size)).map fun c => (c * size, min size (n - c * size))
+
+/-- `par_chunks_exact_mut(size)`: `⌊n / size⌋` full blocks; the remainder is NOT visited. -/
+def chunksExact (size n : Nat) : List (Nat × Nat) :=
+  (List.range (n / size)).map fun c => (c * size, size)
+
+/-- A run of the parallel evaluator as seen from outside (the tie's witness): the writes in completion
+order, each tagged with the worker that performed it. The worker tags carry no information for the
+result — that is the point. -/
+def evalParW {S O : Type} (f : S → O) (pop : List (Ind S O)) (events : List (Nat × Nat)) : List (Ind S O) :=
+  evalPar f pop (events.map (·.2))
+
+/-- Executable legality check of a witness schedule used by the driver: sorted, it is exactly the
+index range (`legalSched_sound`: then it is a permutation of the indices). -/
+def legalSched (sched : List Nat) (n : Nat) : Bool :=
+  sched.mergeSort (fun a b => decide (a ≤ b)) == List.range n
+
+/-- `PopulationEvaluator::execute` on a population stack (head = top) and the `Evaluations` counter:
+the top population is popped, handed to the evaluator (`ev`), the counter grows by its length, and it is
+pushed back; an empty stack is left alone. -/
+def popEvaluate {S O : Type} (ev : List (Ind S O) → List (Ind S O)) (stack : List (List (Ind S O))) (evals : Nat) :
+    List (List (Ind S O)) × Nat :=
+  match stack with
+  | [] => ([], evals)
+  | top :: rest => (ev top :: rest, evals + top.length)
+
 /-! ### Wire format -/
 open MahfModel Sexp
 
@@ -469,5 +527,101 @@ def predictExpUser (input gensS : Sexp) : Option (Sexp × Bool) :=
       | .error _ => .list [ofNat p, ofNat r, .atom "err", .atom "err"])
     pure (model, Sexp.beq model gensS)
   | _ => none
+
+/-! #### Direct evaluator calls on prepared populations -/
+
+/-- The objective function of the harness problem `EvalProbe`: `Σ xᵢ²` on small integer vectors (exact
+in `f64`, so the values travel as naturals). -/
+def objF (s : List Nat) : Nat := (s.map fun x => x * x).sum
+
+/-- Individual `i` of the prepared population: solution `[i, (seed + 7 i) mod 101]` (the first component
+is the individual's tag), objective by `prep`: 0 unevaluated · 1 stale value 7 (never a value of `objF`
+on these solutions … must be overwritten) · 2 every third stale, the rest unevaluated · 3 already
+correct · otherwise even slots correct, odd slots unevaluated. -/
+def prepInd (prep seed i : Nat) : Ind (List Nat) Nat :=
+  let sol := [i, (seed + 7 * i) % 101]
+  { sol, obj := match prep with
+      | 0 => none
+      | 1 => some 7
+      | 2 => if i % 3 = 0 then some 7 else none
+      | 3 => some (objF sol)
+      | _ => if i % 2 = 0 then some (objF sol) else none }
+
+def prepPop (n prep seed : Nat) : List (Ind (List Nat) Nat) := (List.range n).map (prepInd prep seed)
+
+def objAtom (o : Option Nat) : Sexp := match o with
+  | none => .atom "-"
+  | some v => ofNat v
+
+/-- What the harness reports of one evaluator call: `(res (objs o…) (sched i…) (extra e…))` or `panic`. -/
+structure EvalRes where
+  objs : List Sexp
+  sched : List Nat
+  extra : List Sexp
+
+def evalRes? : Sexp → Option EvalRes
+  | .list [.atom "res", .list (.atom "objs" :: os), .list (.atom "sched" :: ss), .list (.atom "extra" :: es)] => do
+    let sched ← ss.mapM nat?
+    pure { objs := os, sched, extra := es }
+  | _ => none
+
+/-- The lower population of the `component` entry: three unevaluated individuals that must stay so. -/
+def lowerPop (n : Nat) : List (Ind (List Nat) Nat) := (List.range 3).map fun j => ⟨[n + j, 0], none⟩
+
+/-- Model of one entry point with evaluator `ev` → (objective column of the evaluated slice, extras).
+`direct`: `Evaluate::evaluate(problem, state, &mut pop[lo .. lo + len])`; `component`: the
+`PopulationEvaluator` component run by `Configuration::run` on a state whose stack is `[slice, lower]`
+→ extras = Evaluations counter, stack height, number of evaluated individuals in the lower population. -/
+def evalEntry (entry : String) (n : Nat) (sub : List (Ind (List Nat) Nat))
+    (ev : List (Ind (List Nat) Nat) → List (Ind (List Nat) Nat)) : List Sexp × List Sexp :=
+  if entry == "component" then
+    let (stack, evals) := popEvaluate ev [sub, lowerPop n] 0
+    ((stack.headD []).map (objAtom ·.obj),
+     [ofNat evals, ofNat stack.length, ofNat (((stack.drop 1).headD []).filter (·.obj.isSome)).length])
+  else ((ev sub).map (objAtom ·.obj), [])
+
+def firstDiff (a b : List Sexp) : Sexp :=
+  match (List.range (max a.length b.length)).find? fun j => !(Sexp.beq (a.getD j (.atom "?")) (b.getD j (.atom "?"))) with
+  | none => .atom "none"
+  | some j => .list [ofNat j, a.getD j (.atom "?"), b.getD j (.atom "?")]
+
+/-- `(evaluate entry n threads prep seed lo len)` ↦ `(evaluate (seq R) (par R))`, `R` as in `evalRes?`.
+The population is `prepPop n prep seed`, the evaluator is handed its sub-slice `[lo, lo + len)`; `sched` =
+the slice-relative indices in the order in which the objective function was entered (WITNESS of the
+schedule; for the parallel evaluator under a pool of `threads` workers).
+K: the sequential result is `evalSeq objF` of the slice; the parallel result is `evalPar objF` of the slice
+along the witness schedule; both witnesses are legal (a permutation of the slice's indices: every
+individual is handed to the objective function exactly once); extras as the model says.
+O (the property, implementation against implementation): the parallel evaluator leaves exactly what
+the sequential evaluator leaves — every objective value and the extras; neither panics.
+Returns (model, agree, holds, class). -/
+def predictEvaluate (input implOut : Sexp) : Option (Sexp × Bool × Bool × String) :=
+  match input, implOut with
+  | .list [.atom "evaluate", .atom entry, nS, _, prepS, seedS, loS, lenS],
+    .list [.atom "evaluate", .list [.atom "seq", sq], .list [.atom "par", pr]] => do
+    let n ← nat? nS; let prep ← nat? prepS; let seed ← nat? seedS; let lo ← nat? loS; let len ← nat? lenS
+    let sub := ((prepPop n prep seed).drop lo).take len
+    let (wantObjs, wantExtra) := evalEntry entry n sub (evalSeq objF)
+    let summary (objs extra : List Sexp) := Sexp.list
+      [.list (.atom "objs" :: (if objs.length ≤ 48 then objs else [.atom "...", ofNat objs.length])), .list (.atom "extra" :: extra)]
+    let model := Sexp.list [.atom "evaluate", .list (.atom "seq" :: [summary wantObjs wantExtra]), .list (.atom "par" :: [summary wantObjs wantExtra])]
+    match evalRes? sq, evalRes? pr with
+    | some s, some p =>
+      let seqOk := Sexp.beq (.list s.objs) (.list wantObjs) && Sexp.beq (.list s.extra) (.list wantExtra) && legalSched s.sched sub.length
+      let (parObjs, parExtra) := evalEntry entry n sub (fun q => evalPar objF q p.sched)
+      let parOk := Sexp.beq (.list p.objs) (.list parObjs) && Sexp.beq (.list p.extra) (.list parExtra) && legalSched p.sched sub.length
+      let same := Sexp.beq (.list p.objs) (.list s.objs) && Sexp.beq (.list p.extra) (.list s.extra)
+      let missing := (p.objs.zip s.objs).any fun (a, b) => Sexp.beq a (.atom "-") && !(Sexp.beq b (.atom "-"))
+      let cls := if same then (if seqOk && parOk then "-" else "evaluator-model")
+        else if missing then "unevaluated" else if p.objs.length != s.objs.length then "count" else "wrong-value"
+      let model := if same && seqOk && parOk then model else
+        Sexp.list [model, .list [.atom "first-diff-par-vs-seq", firstDiff p.objs s.objs],
+                   .list [.atom "first-diff-seq-vs-model", firstDiff s.objs wantObjs]]
+      pure (model, seqOk && parOk, same, cls)
+    | _, _ =>
+      -- a panic of either evaluator: the other one did not panic, or both did (then they agree in that)
+      let bothPanic := Sexp.beq sq (.atom "panic") && Sexp.beq pr (.atom "panic")
+      pure (model, false, bothPanic, if bothPanic then "evaluator-model" else "panic")
+  | _, _ => none
 
 end MahfModel.Determinism
